@@ -1,6 +1,7 @@
 //! zipmc — bounded-exhaustive model checking harness for zip-rs/zip.
 //! usage: zipmc <C01..C20|selftest> [--tier quick|thorough] [--replay FILE] [--worker SPEC]
 
+mod foreign;
 mod props;
 mod reference;
 mod sio;
